@@ -668,6 +668,90 @@ def rule_epoch_schedule_poll(ctx):
     ctx.ob(R, "pending schedule filed under the next epoch", len(nxt) >= 1, "epoch_schedule.insert(cur_epoch.next(), pending)" if nxt else "no insertion of a schedule under cur_epoch.next() found (insert keys: %s)" % [show(a[1])[:40] for f, a in ins if len(a) > 1])
 
 
+def rule_epoch_gate(ctx):
+    R = "C08.12"
+    ctx.rule(R, "the epoch of a block number: epoch_for_block(n) is the epoch whose [activation_block, expiration_block] contains n (both ends inclusive; an open epoch has no expiration) - decided as a truth table of its predicate; and verify_payload hands a payload to the execution layer only when epoch_for_block(number) == Some(epoch) of the caller. An off-by-one at the boundary lets the validators of epoch N vote for the first block of epoch N+1, which the next committee decides as well: two valid certificates for one number")
+    cl = [g for g in ctx.F.fns if not g.in_testonly() and g.qname.endswith("EngineManager::epoch_for_block::{closure#0}")]
+    if not cl:
+        # written without the find-predicate closure (e.g. an explicit loop): the interval test is not evaluated for that form
+        have = bool(ctx.F.by_qname.get(EM + "::epoch_for_block")) or (EM + "::epoch_for_block") in getattr(ctx.F, "helpers", {})
+        if have:
+            ctx.note("C08.12 epoch_for_block: no find-predicate closure (loop form) - interval table not decided")
+            ctx.ob(R, "epoch_for_block predicate table", True, "undecided shape (not reported)")
+    for g in cl:
+        def side(t):
+            n = chain(t)[1]
+            if n[-1:] == ["activation_block"]:
+                return "act"
+            if any(x[0] == "field" and x[2] == "expiration_block" for x in subterms(t)):
+                return "exp"
+            r = chain(t)[0]
+            if r[0] == "upvar" or (r[0] == "param" and not n):
+                return "n"
+            return None
+
+        def mk(which):
+            def m(a, b):
+                sa, sb = side(a), side(b)
+                if sa == which and sb == "n":
+                    return 1
+                if sb == which and sa == "n":
+                    return -1
+                return 0
+            return m
+
+        def a_exp(t):
+            return t[0] == "field" and t[2] == "expiration_block"
+        atoms = [Atom("cmp(activation,n)", "cmp", mk("act"), ["<", "=", ">"]), Atom("expiration", "opt", a_exp, ["None", "Some"]), Atom("cmp(expiration,n)", "cmp", mk("exp"), ["<", "=", ">"])]
+        W = Walker(ctx, g, atoms)
+        bad, undec = [], 0
+        for a in "<=>":
+            for e in ("None", "Some"):
+                for x in "<=>":
+                    if e == "None" and x != "=":
+                        continue
+                    exp = a in "<=" and (e == "None" or x in "=>")
+                    tr = common.ret_truths(ctx, W, g, {"cmp(activation,n)": a, "expiration": e, "cmp(expiration,n)": x})
+                    if not tr or None in tr:
+                        undec += 1
+                    elif tr != {exp}:
+                        bad.append((a, e, x, sorted(tr)))
+        if bad:
+            ctx.ob(R, "epoch_for_block predicate table", False, "epoch_for_block's predicate deviates for (activation vs n, expiration, expiration vs n) = %s: the epoch interval is not [activation, expiration] inclusive" % bad[:3], g.loc())
+        elif undec:
+            ctx.note("C08.12 epoch_for_block predicate: %d valuations not evaluated - not decided" % undec)
+            ctx.ob(R, "epoch_for_block predicate table", True, "undecided shape (not reported)", g.loc())
+        else:
+            ctx.ob(R, "epoch_for_block predicate table", True, "true exactly when activation <= n and (no expiration or n <= expiration) (12 valuations)", g.loc())
+    f = ctx.body(EM + "::verify_payload")
+    T = ctx.T(f)
+    iv = [c["bb"] for c in T.calls() if c["q"].endswith("EngineInterface::verify_payload")]
+    ctx.floor(R, "execution-layer verify_payload sites", len(iv), 1)
+
+    def is_efb(t):
+        return any((x[0] == "call" and x[1].endswith("EngineManager::epoch_for_block")) or (x[0] == "closure" and "EngineManager::epoch_for_block::" in x[1]) for x in subterms(t))
+
+    def m2(a, b):
+        if is_efb(a) and not is_efb(b):
+            return 1
+        if is_efb(b) and not is_efb(a):
+            return -1
+        return 0
+    uses = any((c["rq"] or c["q"]).endswith("EngineManager::epoch_for_block") for c in T.calls()) or any(str(b_["t"].get("inlined_call", "")).endswith("EngineManager::epoch_for_block") for b_ in f.blocks) \
+        or any(x[0] == "closure" and "EngineManager::epoch_for_block::" in x[1] for c in T.calls() for a_ in T.args_of(c) for x in subterms(a_))
+    if not common.atom_is_tested(ctx, f, m2) and uses:
+        ctx.note("C08.12 verify_payload: epoch_for_block is used but its result is not compared in a recognised form - not decided")
+        ctx.ob(R, "verify_payload epoch gate", True, "undecided shape (not reported)", f.loc())
+        return
+    if not common.atom_is_tested(ctx, f, m2):
+        ctx.ob(R, "verify_payload epoch gate", False, "verify_payload no longer compares epoch_for_block(number) with the caller's epoch (the one predicate whose boundary table is checked): the epoch membership of the block is decided by other means or not at all", f.loc())
+        return
+    W = Walker(ctx, f, [Atom("epoch_for_block(number) vs Some(epoch)", "cmp", m2, ["=", "!="])])
+    names, tab = W.table({"verify": iv})
+    ok = "verify" in tab.get(("=",), set()) and "verify" not in tab.get(("!=",), {"verify"})
+    ctx.ob(R, "verify_payload epoch gate", ok, "the execution layer is asked only when epoch_for_block(number) == Some(epoch)" if ok else "verify_payload reaches the execution layer although the block number does not belong to the caller's epoch: %s" % {k: sorted(v) for k, v in tab.items()}, f.loc())
+
+
 def rule_visibility(ctx):
     R = "C08.9"
     ctx.rule(R, "closed world: BlockStore and try_push/update_persisted are not reachable from outside the engine crate (rustc effective visibility)")
@@ -684,4 +768,4 @@ def rule_visibility(ctx):
 
 
 RULES = [("C08.1", rule_verify_before_queue), ("C08.2", rule_single_door), ("C08.3", rule_next_only), ("C08.4", rule_persisted_grows),
-         ("C08.5", rule_eviction), ("C08.6", rule_single_writer), ("C08.7", rule_peer_blocks), ("C08.8", rule_get_block), ("C08.9", rule_visibility), ("C08.10", rule_state_predicates), ("C08.11", rule_epoch_schedule_poll)]
+         ("C08.5", rule_eviction), ("C08.6", rule_single_writer), ("C08.7", rule_peer_blocks), ("C08.8", rule_get_block), ("C08.9", rule_visibility), ("C08.10", rule_state_predicates), ("C08.11", rule_epoch_schedule_poll), ("C08.12", rule_epoch_gate)]
